@@ -53,7 +53,9 @@ type Case struct {
 var (
 	varPool = []string{"u", "v", "w"}
 	keyPool = []string{"k1", "k2"}
-	msgPool = []string{"m", "n"}
+	// :id is also handled by vanilla-flavor (a primary that ignores its arguments); vanilla-flavor is the last
+	// entry of every precedence list, so any primary of a component comes first.
+	msgPool = []string{"m", "n", "id"}
 )
 
 // valid reports why a case is not a legal history ("" = legal).
@@ -151,6 +153,7 @@ func prec(fl []Flv, f int) []int {
 // expectation of one send.
 type sendExp struct {
 	none    bool     // nothing handles the message: a condition is expected
+	vanilla bool     // no primary among the components: vanilla-flavor's runs (no mark, value not fixed)
 	trace   []string // id=value entries
 	value   string   // expected value text ("" = not fixed: no primary)
 	nWhop   int
@@ -176,7 +179,7 @@ func expectSend(c Case, f int, msg string, x int, live []int) sendExp {
 		}
 	}
 	var e sendExp
-	if len(cur) == 0 {
+	if len(cur) == 0 && msg != "id" {
 		e.none = true
 		return e
 	}
@@ -194,10 +197,11 @@ func expectSend(c Case, f int, msg string, x int, live []int) sendExp {
 	bj, bf := pick("b")
 	aj, af := pick("a")
 	pj, pf := pick("p")
-	if len(wj)+len(bj)+len(aj)+len(pj) == 0 {
+	if len(wj)+len(bj)+len(aj)+len(pj) == 0 && msg != "id" {
 		e.none = true
 		return e
 	}
+	e.vanilla = msg == "id" && len(pj) == 0
 	e.nWhop, e.nBefore, e.nAfter = len(wj), len(bj), len(aj)
 	arg := x
 	for i := range wj {
